@@ -241,9 +241,10 @@ fn select(op: &FormulaOperator, lhs: Value, rhs: Value) -> (r: Result<Fx, TermEr
         (r"let rhs = factor\(&rhs, env, p\)\?;$", "let rhs = factor(&rhs_list[i].1)?;"),
         (r"let new_fxn\s*:\s*Box<dyn MechFunction>\s*=\s*match op\b", "let new_fxn = dispatch(op, lhs, rhs)?;"),
         (r"new_fxn\.solve\(\);$", "/* new_fxn.solve(); */"),
-        (r"let res = new_fxn\.out\(\);$", "let res = solve_out(op, &new_fxn);"),
+        (r"let (\w+) = new_fxn\.out\(\);$", r"let \1 = solve_out(op, &new_fxn);"),
+        (r"lhs = new_fxn\.out\(\);$", "lhs = solve_out(op, &new_fxn);"),
         (r"term_plan\.push\(new_fxn\);$", "/* term_plan.push(new_fxn); */"),
-        (r"lhs = res;$", "lhs = res;"),
+        (r"lhs = (\w+);$", r"lhs = \1;"),
     ]
     trans, unknown = [], 0
     for st in inner:
@@ -254,8 +255,9 @@ fn select(op: &FormulaOperator, lhs: Value, rhs: Value) -> (r: Result<Fx, TermEr
                 break
             st1 = st2
         for rx, out in shapes:
-            if re.match(rx, st1, re.S):
-                trans.append(out)
+            mm = re.match(rx, st1, re.S)
+            if mm:
+                trans.append(mm.expand(out) if "\\1" in out else out)
                 break
         else:
             unknown += 1
